@@ -37,6 +37,9 @@ def target_funcs(spec):
         return (lambda x: -0.5 * np.sum(np.where(x < 0, pl, pr) * (x * x))), (lambda x: -(np.where(x < 0, pl, pr) * x))
     if kind == "quartic":
         return (lambda x: -0.25 * np.sum((x * x) * (x * x))), (lambda x: -(x * (x * x)))
+    if kind == "quad":
+        P = np.array(spec["P"], dtype=float)
+        return (lambda x: -0.5 * float(x @ (P @ x))), (lambda x: -0.5 * ((P @ x) + (P.T @ x)))
     if kind == "box":
         p = np.array(spec["prec"], dtype=float)
         B = spec["bound"]
@@ -82,12 +85,14 @@ def ctarget(spec):
         return "(TSplit %s %s)" % (clist([cqc(v) for v in spec["pl"]]), clist([cqc(v) for v in spec["pr"]]))
     if k == "quartic":
         return "TQuartic"
+    if k == "quad":
+        return "(TQuad %s)" % clist([clist([cqc(v) for v in row]) for row in spec["P"]])
     return "(TBox %s %s %s)" % (clist([cqc(v) for v in spec["prec"]]), cqc(spec["bound"]),
                                 {"ninf": "NInf", "nan": "NaN", "pinf": "PInf"}[spec["bad"]])
 
 
 def dim_of(spec):
-    return {"quartic": lambda: spec["dim"], "split": lambda: len(spec["pl"])}.get(spec["kind"], lambda: len(spec["prec"]))()
+    return {"quartic": lambda: spec["dim"], "split": lambda: len(spec["pl"]), "quad": lambda: len(spec["P"])}.get(spec["kind"], lambda: len(spec["prec"]))()
 
 
 def kind_name(spec):
@@ -631,7 +636,7 @@ def dy(rng, lo, hi, den):
 
 
 EPS_CLASSES = {"tiny": [0.0625, 0.125], "mid": [0.25, 0.5, 1.0], "huge": [2.0, 4.0, 8.0]}
-TARGET_KINDS = ["gauss", "split", "quartic", "box:ninf", "box:nan", "box:pinf"]
+TARGET_KINDS = ["gauss", "split", "quad", "quartic", "box:ninf", "box:nan", "box:pinf"]
 
 
 def gen_spec(rng, tk, d=None):
@@ -643,6 +648,21 @@ def gen_spec(rng, tk, d=None):
         return {"kind": "split", "pl": [rng.choice(precs) for _ in range(d)], "pr": [rng.choice(precs) for _ in range(d)]}
     if tk == "quartic":
         return {"kind": "quartic", "dim": min(d, 2)}
+    if tk == "quad":
+        # a correlated quadratic target: diagonally dominant, off-diagonal entries of both signs, symmetric or not
+        d = max(d, 2)
+        P = [[0.0] * d for _ in range(d)]
+        sym = rng.random() < 0.5
+        for i_ in range(d):
+            for j_ in range(d):
+                if i_ != j_ and (not sym or i_ < j_):
+                    P[i_][j_] = rng.choice([-1.0, -0.5, 0.0, 0.5, 1.0, 0.25])
+                    if sym:
+                        P[j_][i_] = P[i_][j_]
+        for i_ in range(d):
+            P[i_][i_] = rng.choice([0.5, 1.0, 2.0]) + max(sum(abs(P[i_][j_]) for j_ in range(d) if j_ != i_),
+                                                           sum(abs(P[j_][i_]) for j_ in range(d) if j_ != i_))
+        return {"kind": "quad", "P": P}
     return {"kind": "box", "prec": [rng.choice([1, 2, 4]) for _ in range(d)], "bound": rng.choice([0.75, 1.5, 2.0]), "bad": tk.split(":")[1]}
 
 
@@ -954,6 +974,51 @@ def tie_cases(ctx, rng, cuqi, state, cases):
         made += 1
 
 
+def scale_cases(ctx, rng, cuqi, state, cases):
+    """dyadic scale sweep: the same Gaussian problem with positions scaled by 2^k (precisions by 4^-k, step size by 2^k, momenta
+    unchanged) is the same Hamiltonian dynamics, and power-of-two scaling is exact in binary64: every leaf of the scaled run must be
+    the scaled leaf of the unscaled run BIT FOR BIT (oracle), and must EQUAL the model's exact rationals (tolerance 0 in Coq)."""
+    made, tries = 0, 0
+    while made < ctx.n(16, 60) and tries < 600:
+        tries += 1
+        impl = ["exp", "leg"][tries % 2]
+        md = rng.choice([2, 2, 3])
+        d = rng.choice([1, 2])
+        spec = {"kind": "gauss", "prec": [rng.choice([1, 4, 4, 9]) for _ in range(d)]}      # stiff enough to turn back within the tree
+        eps = rng.choice([0.25, 0.5])
+        x0 = [dy(rng, -1.25, 1.25, 8) for _ in range(d)]
+        z = [dy(rng, -2, 2, 16) for _ in range(d)]
+        e, us = gen_script(rng, md)
+        try:
+            o1 = run_chain(cuqi, impl, spec, eps, md, x0, [(z, e, us)])[0]
+        except Exception:
+            continue
+        if o1["eps"] != eps or not exact_leaves(spec, eps, x0, z, o1["leaves"]):
+            continue
+        k = rng.choice([-40, -40, -20, -8, 8, 20, 40])      # 2^-40: inner products of order 1e-12
+        sc_ = 2.0 ** k
+        spec2 = {"kind": "gauss", "prec": [p_ / (sc_ * sc_) for p_ in spec["prec"]]}
+        x02 = [v * sc_ for v in x0]
+        eps2 = eps * sc_
+        chain_meta = {"impl": impl, "target": spec2, "eps": eps2, "max_depth": md, "x0": x02, "warm": 0, "warm_seed": 1,
+                      "scripts": [[z, e, us]], "scale": k}
+        try:
+            o2 = run_chain(cuqi, impl, spec2, eps2, md, x02, [(z, e, us)])[0]
+        except Exception as ex:
+            cases.append(crash_case(impl, spec2, md, "scale", chain_meta, repr(ex)))
+            continue
+        c, _ = mk_case(state, impl, spec2, md, "scale2^%d" % k, o2, z, e, us, chain_meta, 0, exact=True)
+        same = (len(o1["leaves"]) == len(o2["leaves"]) and
+                all(np.array_equal(a_[0] * sc_, b_[0]) and np.array_equal(a_[1], b_[1]) and a_[2] == b_[2] for a_, b_ in zip(o1["leaves"], o2["leaves"]))
+                and np.array_equal(o1["point"] * sc_, o2["point"]) and o1["nrand"] == o2["nrand"])
+        if not same and not c.impl_fail:
+            c.impl_fail = ("the transition of the problem scaled by 2^%d is not the scaled transition of the unscaled problem (leaves %d vs %d, new state %s vs %s)"
+                           % (k, len(o2["leaves"]), len(o1["leaves"]), o2["point"], o1["point"] * sc_))
+            c.signature = "NUTS.%s.scale" % impl
+        cases.append(c)
+        made += 1
+
+
 def run(ctx):
     import cuqi
     import common
@@ -979,6 +1044,7 @@ def run(ctx):
                 for _ in range(ctx.n(3, 10) if md < 2 else 2):
                     gen_chain(ctx, rng, cuqi, state, impl, tk, md, "mid", rng.choice([3, 5, 10, 12, 19, 20, 25]), cases, inners)
     tie_cases(ctx, rng, cuqi, state, cases)
+    scale_cases(ctx, rng, cuqi, state, cases)
     # how many of the scripted transitions were decided with all margins (sample)
     small = [t for t in inners if len(t) < 2500]
     sample = rng.sample(small, min(len(small), 40))
